@@ -125,6 +125,18 @@ def run(ctx):
         and bound.get("boxes") == "self.boxes" and st.get("self.dx") == "dx" and st.get("self.boxes") == "boxes"
     ctx.check(ok, f"{P}.WIRING", pg.site, "the selector receives this reader's geo_low, dx and boxes",
               f"selector construction binds {bound}; stored as { {k: v for k, v in st.items() if k in ('self.geo_low', 'self.dx', 'self.boxes')} }")
+    # the box data the query interpolates is read through the indexing interface `self[level][box]`: the byte window,
+    # shape and Fortran order of the seek-addressed box readers (rules of C01) are necessary for "that cell's stored
+    # value"
+    from checks import readers
+    _, disp = readers.stream_dispatch(prog, P)
+    slots = readers.task_slots(prog, P)
+    n_rd = 0
+    for kind, funs in sorted(disp.items()):
+        if "read_fun" in funs:
+            readers.check_reader(ctx, P, funs["read_fun"], kind, "box", slots)
+            n_rd += 1
+    ctx.floor("box readers behind the point query", n_rd, 3)
     ctx.assume("spline evaluation of map_coordinates at an exact integer index returns the sample (not decided)")
     ctx.assume("the between-boxes case (CASE 2) is decided only for its index formula and level choice")
     return ("Static: the point -> index conversion as a rational-function identity (with the domain origin), level and "
